@@ -28,6 +28,9 @@ def run(prog, rep, tier='quick'):
     rep.rule('binding', 'corrmtx(x, order, <method>) with the method of the estimator')
     rep.rule('regression', 'lstsq(A, b): A = -X[:, 1:] (order columns), b = X[:, 0], both slices of the corrmtx result; solution returned')
     rep.rule('error', 'returned error real, s=2')
+    rep.rule('data-matrix', "corrmtx 'covariance': entry (i,k) = x[p+i-k], i < N-p; 'modified': those rows followed by conj x[(i-(N-p))+k] (block maps derived for symbolic N, p)")
+    rep.rule('conjugation', 'arcovar under x[n] -> x[n]e^{i theta n}: data matrix entry (i,k) has charge i-k+p, the solution a[j] charge j+1, every inner product sums terms of one charge, the error has charge 0')
+    rep.rule('exact-solve', 'lstsq is called without cond / rcond (no singular-value truncation)')
     rep.rule('marple-normalisation', 'size signature of the returned variances == 1/(N-p)')
     seen = set()
     cm = prog.func('linalg', 'corrmtx')
@@ -100,6 +103,82 @@ def run(prog, rep, tier='quick'):
                         rep.proved('error', f.qname, 'e real [%s]' % ctx, '', where)
                     else:
                         rep.violation('error', f.qname, 'e real [%s]' % ctx, 'the returned error is not real-valued', where)
+    # ---------------- which sample sits where in the data matrix (affine block maps, all N and orders)
+    from .. import segmap as S
+    from ..interp_expr import amap_reduce
+    n_dm = 0
+    for method, users in (('covariance', 'covar.arcovar'), ('modified', 'modcovar.modcovar')):
+        for cplx in (False, True):
+            x = C.data(cplx, phase=False)
+            x.seg = S.identity('X', x.shape[0])
+            Pv = C.symint('P', 3, 'order')
+            v, itp = C.run_function(prog, 'linalg', 'corrmtx', [x, Pv], {'method': Const(method)})
+            ctx = '%s,%s' % (method, 'complex' if cplx else 'real')
+            n_dm += 1
+            cw = loc(cm.mod, cm.node)
+            if blocked(rep, 'data-matrix', cm.qname, ctx, itp):
+                continue
+            A = tonum(v) if v is not None else None
+            if A is None or A.amap is None:
+                rep.undecided('data-matrix', cm.qname, ctx, 'arrangement of the data matrix not derivable', cw)
+                continue
+            if A.amap == 'bad':
+                rep.violation('data-matrix', cm.qname, ctx, 'the matrix is assembled from pieces that are not an affine arrangement of '
+                              'the data', cw)
+                continue
+            NP = x.shape[0] - Pv.a
+            want = {(repr(Aff(0)), repr(NP), '1', '-1', repr(Pv.a), False)}
+            if method == 'modified':
+                want.add((repr(NP), repr(NP.scale(2)), '1', '1', repr(-NP), True))
+            got = {(repr(b[0]), repr(b[1]), str(b[4]), str(b[5]), repr(b[6]), bool(b[8])) for b in amap_reduce(A.amap)}
+            cols_ok = all(b[2] == Aff(0) and b[3] == Pv.a + 1 for b in A.amap)
+            if not cplx:
+                want = {w[:5] for w in want}        # conjugation is the identity on real data
+                got = {g[:5] for g in got}
+            if got == want and cols_ok:
+                rep.proved('data-matrix', cm.qname, ctx, 'rows 0..N-p-1: x[p+i-k]' + ('; rows N-p..2(N-p)-1: conj x[(i-(N-p))+k]'
+                           if method == 'modified' else '') + ' (used by %s)' % users, cw)
+            else:
+                rep.violation('data-matrix', cm.qname, ctx, 'the %s data matrix holds %s (rows from, to, d/di, d/dk, offset[, conj]); '
+                              'required %s: the least-squares problem solved is not the %s prediction-error problem'
+                              % (method, sorted(got), sorted(want), 'forward' if method == 'covariance' else 'forward-backward'), cw)
+    rep.floor('data-matrix contexts', n_dm, 4)
+    # ---------------- conjugate placement (modulation charges of the data matrix, the solution and the error; 2-D charges)
+    from ..d4rules import run_d4, report_q, check_q
+    from .. import charge as Q
+    n_q = 0
+    seen_q = set()
+    f = prog.func('covar', 'arcovar')
+    for pval in (2, 5):
+        v, itp = run_d4(prog, 'covar', 'arcovar', [C.data(True, phase=False), Const(pval)])
+        ctx = 'order=%d' % pval
+        n_q += 1
+        if blocked(rep, 'conjugation', f.qname, ctx, itp):
+            continue
+        nconf = report_q(rep, 'conjugation', itp, ('covar.arcovar', 'linalg.corrmtx'), ctx, seen_q)
+        if isinstance(v, Tup) and len(v.items) == 2:
+            check_q(rep, 'conjugation', f.qname, ctx, 'a', v.items[0], Q.lin(1, Aff(1)), loc(f.mod, f.node), nconf)
+            check_q(rep, 'conjugation', f.qname, ctx, 'e', v.items[1], Aff(0), loc(f.mod, f.node), nconf)
+        elif not nconf:
+            rep.undecided('conjugation', f.qname, ctx, 'no (a, e) pair returned', loc(f.mod, f.node))
+    rep.floor('conjugation contexts', n_q, 2)
+    # ---------------- the solve is the plain least-squares solve
+    for mod, fname, method in (('covar', 'arcovar', 'covariance'), ('modcovar', 'modcovar', 'modified')):
+        f = prog.func(mod, fname)
+        v, itp = C.run_function(prog, mod, fname, [C.data(True, phase=False), Const(3)], {})
+        ls = [e for e in itp.events if e[0] == 'lstsq']
+        for e in ls:
+            extra = {k: val for k, val in e[5].items() if not (isinstance(val, Const) and val.v is None)
+                     and k not in ('lapack_driver', 'overwrite_a', 'overwrite_b', 'check_finite')}
+            if extra:
+                rep.violation('exact-solve', f.qname, normalise(e[1]), 'the least-squares solve is given %s: singular values below the '
+                              'threshold are dropped, so for a full-rank but ill-conditioned data matrix the result is a truncated '
+                              'solution, not the minimiser of the prediction error' % ', '.join('%s=%s' % (k, getattr(val, 'v', val)) for k, val in sorted(extra.items())),
+                              loc(f.mod, e[1]))
+            else:
+                rep.proved('exact-solve', f.qname, normalise(e[1]), 'no truncation threshold passed (machine-precision default)', loc(f.mod, e[1]))
+        if not ls:
+            rep.undecided('exact-solve', f.qname, 'lstsq', 'lstsq call not found', loc(f.mod, f.node))
     # Marple recursions
     for mod, fname, idxs in (('covar', 'arcovar_marple', (1, 3)), ('modcovar', 'modcovar_marple', (1,))):
         f = prog.func(mod, fname)
